@@ -170,7 +170,11 @@ pub struct LintGroup {
     ///
     /// Since the pattern linter results also depend on the config, we hash it and pass it as part
     /// of the key.
-    chunk_pattern_cache: LruCache<(CharString, u64), Vec<Lint>>,
+    ///
+    /// The same characters can be tokenized differently (another parser, another dictionary, a
+    /// quote paired with a different partner), so a hash of the chunk's tokens is part of the key
+    /// as well.
+    chunk_pattern_cache: LruCache<(CharString, u64, u64), Vec<Lint>>,
     hasher_builder: RandomState,
 }
 
@@ -406,7 +410,17 @@ impl Linter for LintGroup {
 
             let chunk_chars = document.get_span_content(&chunk_span);
             let config_hash = self.hasher_builder.hash_one(&self.config);
-            let key = (chunk_chars.into(), config_hash);
+
+            // Pattern linters see tokens, not characters: hash the tokens relative to the chunk.
+            let mut token_hasher = self.hasher_builder.build_hasher();
+            for token in chunk {
+                token_hasher.write_usize(token.span.start.wrapping_sub(chunk_span.start));
+                token_hasher.write_usize(token.span.end.wrapping_sub(chunk_span.start));
+                token.kind.hash(&mut token_hasher);
+            }
+            let token_hash = token_hasher.finish();
+
+            let key = (chunk_chars.into(), config_hash, token_hash);
 
             let mut chunk_results = if let Some(hit) = self.chunk_pattern_cache.get(&key) {
                 hit.clone()
